@@ -7,9 +7,9 @@ open Refine Refine2 Sy C07 C08 Clocks Race
 /-!
 Race exactness on the WAIT fragment: `nNotify n` / `nWait n` (user-level `rt::Notify`, slot `nI w.prog n`) keep `RC2`.
 
-* `nNotify`: the branch point is quiet; the effect is THE reference step: a release into the slot; every waiter
-  (by `staleOk`: a thread in `nWait n`, stage 1) joins the notifier's causality at once, which its pending clock
-  (the slot of the NEW system) covers.
+* `nNotify`: the branch point is quiet; the effect is THE reference step: a release into the slot; no other thread's
+  clocks change (`Notify::notify` only wakes: repair of finding F26), and the pending clock of a waiter (the slot
+  of the NEW system) only grows.
 * `nWait`: stage 0 (registration, spurious decision, scheduling point) is quiet; stage 1 is THE reference step (the
   pending acquisition becomes official: `sandwich_join`); stage 2 is the spurious return (`SC.spurious`).
 -/
@@ -344,8 +344,7 @@ theorem clk_nWait2 (hRC : RC2 w s) (hact : w.tid < w.ctl.length) {ni : Nat}
 /-- the thread entries after `Notify::notify` on object `o` -/
 def ntfF (w : World) (o : Nat) : Nat → Thread → Thread := fun i th =>
   if i = w.tid then th
-  else if th.operation.any (fun op => op.obj == o) then
-    ({ th with causality := th.causality.join w.ths.activeT.causality }).wake
+  else if th.operation.any (fun op => op.obj == o) then th.wake
   else th
 
 theorem any_obj_iff (t : Thread) (o : Nat) :
@@ -354,25 +353,9 @@ theorem any_obj_iff (t : Thread) (o : Nat) :
   | none => simp
   | some op => simp
 
-/-- what `staleOk` says when the effect of `nNotify` is about to run -/
-theorem stale_facts {ni : Nat} (hop : opAt2 w = some (.nNotify ni)) (hs0 : (w.ctlOf w.tid).stage ≠ 0)
-    (hst : staleOk w = true) {i : Nat} (hi : i < w.ctl.length) (hne : i ≠ w.tid)
-    (ht : topo w i = some (w.notifyObj ni)) : opAtI w i = some (.nWait ni) ∧ (w.ctlOf i).stage = 1 := by
-  unfold staleOk at hst
-  rw [hop] at hst
-  simp only [Bool.or_eq_true, beq_iff_eq, List.all_eq_true, List.mem_range, Bool.and_eq_true, decide_eq_true_eq,
-    Bool.not_eq_true', beq_eq_false_iff_ne] at hst
-  rcases hst with h0 | hall
-  · exact absurd h0 hs0
-  · rcases hall i hi with (h1 | h1) | h1
-    · exact absurd h1 hne
-    · exact absurd ht h1
-    · exact h1
-
 /-- the twin side of the effect of `nNotify`, for a world given by its components -/
 theorem nNotify_twin (hRC : RC2 w s) (hact : w.tid < w.ctl.length) {ni : Nat}
-    (hop : opAt2 w = some (.nNotify ni)) (hn : ni < w.prog.cfg.nNotifies) (hstale : staleOk w = true)
-    (hs0 : (w.ctlOf w.tid).stage ≠ 0) {σT : CS} {mT : Nat → List VV} (hLT : LinkT2 w σT mT) (x' : Obj)
+    (hop : opAt2 w = some (.nNotify ni)) (hn : ni < w.prog.cfg.nNotifies) {σT : CS} {mT : Nat → List VV} (hLT : LinkT2 w σT mT) (x' : Obj)
     (hx' : hbOf x' = (σT.mtx (nI w.prog ni)).join (σT.thr w.tid))
     (hp : w'.prog = w.prog) (hs : w'.spawned = w.spawned) (hnt : nthr w' = nthr w)
     (hobjs : w'.exec.objs = w.exec.objs.set (w.notifyObj ni) x')
@@ -381,7 +364,6 @@ theorem nNotify_twin (hRC : RC2 w s) (hact : w.tid < w.ctl.length) {ni : Nat}
     TwinInv w' ∧ TwinInv2 w' ∧ LinkT2 w' (σT.rel w.tid (nI w.prog ni)) mT := by
   have ht := nthr_tid2 hRC hact
   have hf0 := fin0 hRC hact hop
-  have hcl := nthr_eq2 hRC.r
   obtain ⟨hT, hO⟩ := unpack hRC.inv hRC.inv2 hLT
   have hTt := hT w.tid ht
   have hpc : pendClk w σT w.tid = VV.zero :=
@@ -404,35 +386,21 @@ theorem nNotify_twin (hRC : RC2 w s) (hact : w.tid < w.ctl.length) {ni : Nat}
     show upd σT.mtx _ _ _ = _
     rw [upd_self]
   -- the thread entries
-  have hkeep : ∀ i, (i = w.tid ∨ nthr w ≤ i ∨ topo w i ≠ some (w.notifyObj ni)) →
-      key5 (w'.ths.get i) = key5 (w.ths.get i) := by
-    intro i hi
+  have hkeep : ∀ i, key5 (w'.ths.get i) = key5 (w.ths.get i) := by
+    intro i
     rw [hget]
     split
     · unfold ntfF
       split
       · rfl
-      · next hne =>
-        split
-        · next hany =>
-          exfalso
-          rcases hi with h | h | h
-          · exact hne h
-          · omega
-          · exact h ((any_obj_iff _ _).1 hany)
+      · split
+        · exact key5_wake _
         · rfl
     · rfl
-  have hjoined : ∀ i, i < nthr w → i ≠ w.tid → topo w i = some (w.notifyObj ni) →
-      key5 (w'.ths.get i) = key5 { w.ths.get i with causality := (tcaus w i).join (tcaus w w.tid) } := by
-    intro i hi hne htp
-    rw [hget, if_pos hi]
-    unfold ntfF
-    rw [if_neg hne, if_pos ((any_obj_iff _ _).2 htp)]
-    exact key5_wake _
   refine assemble hRC hLT hp hs hnt (by rw [holen]; exact Nat.le_refl _) hctlne hbodyT
     (by intro h; rw [hf0] at h; omega) ?_ ?_ ?_ ?_ ?_ ?_ ?_ ?_ ?_ ?_
   · -- the notifier
-    obtain ⟨hsm, htp⟩ := sameThr_of_key5 (hkeep w.tid (.inl rfl))
+    obtain ⟨hsm, htp⟩ := sameThr_of_key5 (hkeep w.tid)
     refine ThrInv.exact ?_ ?_ ?_ ?_ ?_ ?_
     · rw [hsm.rel]; exact hTt.rel
     · intro o ho
@@ -454,63 +422,11 @@ theorem nNotify_twin (hRC : RC2 w s) (hact : w.tid < w.ctl.length) {ni : Nat}
     · intro _ htk
       rw [hsm.uc]
       exact hTt.tokz (by rw [hf0]; omega) (by rw [← hsm.tok]; exact htk)
-  · -- the other threads: the waiters join the notifier's causality
+  · -- the other threads: nothing the invariant reads changes (a waiter is only woken)
     intro i hi hne
-    by_cases htp : topo w i = some (w.notifyObj ni)
-    · right
-      have hTi := hT i hi
-      obtain ⟨hop_i, hst_i⟩ := stale_facts hop hs0 hstale (by rw [hcl]; exact hi) hne htp
-      obtain ⟨r1, r2, r3, r4, r5⟩ := readers_of_key5 (hjoined i hi hne htp)
-      have r1' : tcaus w' i = (tcaus w i).join (tcaus w w.tid) := r1
-      have r2' : trel w' i = trel w i := r2
-      have r3' : topo w' i = topo w i := r3
-      have r4' : tuc w' i = tuc w i := r4
-      have r5' : ttok w' i = ttok w i := r5
-      have hfi : fin w' i = fin w i := hfinne i hne
-      have hbi : body w' i = body w i := body_congr (hctlne i hne)
-      have hpc' : pendClk w' (σT.rel w.tid (nI w.prog ni)) i = (σT.mtx (nI w.prog ni)).join (σT.thr w.tid) := by
-        unfold pendClk
-        rw [opAtI_congr hp (hctlne i hne), hop_i]
-        simp only
-        rw [hctlne i hne, if_pos hst_i, hp, hslot_self]
-      have hpci : pendClk w σT i = σT.mtx (nI w.prog ni) := by
-        unfold pendClk
-        rw [hop_i]
-        simp only
-        rw [if_pos hst_i]
-      refine ⟨?_, ?_, ?_, ?_, ?_, ?_, ?_⟩
-      · rw [r2']; exact hTi.rel
-      · intro o ho
-        rw [r3'] at ho
-        rw [holen]; exact hTi.ob o ho
-      · intro b j n ho hm hij
-        rw [r3', htp] at ho
-        cases ho
-        rw [hs] at hm
-        exact absurd rfl (sp_ne_ntf2 hRC.r hm hn)
-      · show (σT.thr i).le _
-        rw [r1']
-        exact le_trans hTi.lo (le_join_left _ _)
-      · rw [r1', hpc']
-        show VV.le _ ((σT.thr i).join _)
-        have h2 := hTi.hi
-        rw [hpci] at h2
-        rw [← hA]
-        exact join_le (le_trans h2 (join_mono (le_refl _) (le_join_left _ _)))
-          (le_trans (le_join_right _ _) (le_join_right _ _))
-      · intro hf
-        rw [hfi] at hf
-        have hk := hTi.tok hf
-        rw [hp, hbi, hkI, r4', r1']
-        exact ⟨hk.1, le_trans hk.2 (join_mono (le_join_left _ _) (le_refl _))⟩
-      · intro hf htk
-        rw [hfi] at hf
-        rw [r5'] at htk
-        rw [r4']
-        exact hTi.tokz hf htk
-    · left
-      obtain ⟨hsm, htp'⟩ := sameThr_of_key5 (hkeep i (.inr (.inr htp)))
-      exact ⟨hsm, htp', rfl, fun _ => hkI _⟩
+    left
+    obtain ⟨hsm, htp'⟩ := sameThr_of_key5 (hkeep i)
+    exact ⟨hsm, htp', rfl, fun _ => hkI _⟩
   · intro m
     show (σT.mtx m).le (upd σT.mtx (nI w.prog ni) _ m)
     by_cases e : m = nI w.prog ni
@@ -548,21 +464,11 @@ theorem nNotify_twin (hRC : RC2 w s) (hact : w.tid < w.ctl.length) {ni : Nat}
       · rw [hfinne j e]
     · intro j h10
       have e : j ≠ w.tid := by intro e; subst e; rw [hf0] at h10; omega
-      have hk : key5 (w'.ths.get j) = key5 (w.ths.get j) := by
-        apply hkeep
-        by_cases hj : j < nthr w
-        · right; right
-          intro htp
-          obtain ⟨hop_j, _⟩ := stale_facts hop hs0 hstale (by rw [hcl]; exact hj) e htp
-          have h2 : opAtI w j = none :=
-            hRC.r.c.x.epi j (by rw [hcl]; exact hj) (by show fin w j ≠ 0; omega)
-          rw [h2] at hop_j; cases hop_j
-        · right; left; omega
-      exact (sameThr_of_key5 hk).1.caus
+      exact (sameThr_of_key5 (hkeep j)).1.caus
   · intro b _; exact hkI b
 
 theorem clk_nNotify2 (hRC : RC2 w s) (hact : w.tid < w.ctl.length) {ni : Nat}
-    (hop : opAt2 w = some (.nNotify ni)) (hn : ni < w.prog.cfg.nNotifies) (hst : staleOk w = true)
+    (hop : opAt2 w = some (.nNotify ni)) (hn : ni < w.prog.cfg.nNotifies)
     (h : w.runOp (w.ctlOf w.tid) (.nNotify ni) = .ok w') : QuietOut2 w s w' ∨ RealOut2 w s w' := by
   rw [runOp_nNotify] at h
   split at h
@@ -573,7 +479,6 @@ theorem clk_nNotify2 (hRC : RC2 w s) (hact : w.tid < w.ctl.length) {ni : Nat}
       (by rw [hs0']; decide) 1 h (ntf_lt2 hRC.r hn) (fun b j n hm e => sp_ne_ntf2 hRC.r hm hn e.symm)
   · next hs0 =>
     right
-    have hs0' : (w.ctlOf w.tid).stage ≠ 0 := by simpa using hs0
     obtain ⟨w1, hne, h⟩ := bind_ok h
     simp only [pure, Except.pure] at h
     cases h
@@ -601,7 +506,7 @@ theorem clk_nNotify2 (hRC : RC2 w s) (hact : w.tid < w.ctl.length) {ni : Nat}
       rfl
     have hI := nNotify_twin (w' := (W2 w (w.exec.objs.set (w.notifyObj ni) (.notify { ns with
         sync := ns.sync.store w.ths.activeT.released w.ths.caus .rel, notified := true }))
-        (ntfF w (w.notifyObj ni))).complete .unit) hRC hact hop hn hst hs0' hc.lt _ hnew rfl rfl (W2_nthr _ _ _) rfl
+        (ntfF w (w.notifyObj ni))).complete .unit) hRC hact hop hn hc.lt _ hnew rfl rfl (W2_nthr _ _ _) rfl
       (fun i => complete_ctlOf w _ .unit i rfl rfl hact) (fun i => W2c_get w _ _ .unit i)
     have hX1 := hc.x.tickR hc.gt hc.gr (inj_body2 hRC.r) w.tid hact
     refine realOut_complete hRC hact hop (by intro n; simp) _ _ rfl rfl (step_nNotify hcv ho) ?_
